@@ -172,6 +172,12 @@ def build_program(states, rng, per_sig=6, kinds=("function",), max_sigs=None):
                 for fz in (pv[1], PARTNERS[pv[1]][0], "('frozen', 3)"):
                     add(dict(f=fname, kind="partial", frozen="(%s,)" % fz, args=rest, kwargs="{}", mode="call"), role="call", cls=(n, "partial", fz))
                     add(dict(f=fname, kind="partial", frozen="(%s,)" % fz, args=rest, kwargs="{}", mode="shelve"), role="equiv", cls=(n, "partial", fz))
+                # partials dressed up as their function (functools.update_wrapper(partial(f, ...), f)): same name, still different functions.
+                # They share the identifier of f, so they get a copy of f of their own (same-named callables evict each other by design)
+                src.append(sig_source(fname + "_wp", sig))
+                for fz in (pv[1], PARTNERS[pv[1]][0]):
+                    add(dict(f=fname + "_wp", kind="partial", wrapped=True, frozen="(%s,)" % fz, args=rest, kwargs="{}", mode="call"), role="call", cls=(n, "wpartial", fz))
+                    add(dict(f=fname + "_wp", kind="partial", wrapped=True, frozen="(%s,)" % fz, args=rest, kwargs="{}", mode="shelve"), role="equiv", cls=(n, "wpartial", fz))
         # the same function cached through two Memory objects (two directories)
         if kind == "function" and n % 4 == 1:
             st = shapes[0]; a, k = call_exprs(st, names, val_for(st))
